@@ -749,11 +749,12 @@ fn eval(ctx: &mut Ctx, c13: bool, c: Case) {
 }
 
 fn originals(quick: bool) -> Vec<String> {
-    let _ = quick;
     let mut v = gen::strings(&["a", ",", " ", "é", "1", "-"], 3);
     for s in ["0000000000000000000000000000000000000000000007,x", "-000000000000000000000000000000000000000000000128é", "0000000000000000000000000000000000000001", "  a,b é,,漢  ", "12,-5;true", "  a  ", "a,a,a", "aa,aa", ",,", "-128,255,256", "truefalse1", "é,é,é", "\t1 , 2\n", "a,aa,a", "😀,😀", "\0", "a\0", "\0a,\0", "1\0", "\0 a \0", "true\0"] {
         v.push(s.to_string());
     }
+    // byte order mark, Unicode white space, zero-width chars ...: only every second context in the quick tier
+    v.extend(gen::special_char_strings().into_iter().enumerate().filter(|(i, _)| !quick || i % 2 == 0).map(|(_, s)| s));
     v
 }
 
